@@ -163,8 +163,15 @@ def correspond_gen(prop):
                     mf = m["facts"]
                     eq, diff = facts_equal(af, mf)
                     res.traces_validated += 1
+                    stats.setdefault("model_route", {})
+                    stats["model_route"][m.get("route", "adef")] = stats["model_route"].get(m.get("route", "adef"), 0) + 1
                     if not eq:
                         res.model_disagreements.append({"case": slim(c), "diff": diff})
+                    elif m.get("routes_agree") is False:
+                        # the key-level model (manTransform on the parser's tree) and the abstract lowering of the same
+                        # definition (lowerManifest) give different answers: the model is not one model
+                        d2 = first_diff(canon_facts(mf), canon_facts(m.get("adef_route_facts")))
+                        res.model_disagreements.append({"case": slim(c), "diff": "model routes differ (key-level tree reading vs abstract lowering): " + str(d2)})
             if mf is not None and af.get("outcome") == "ok" and mf.get("enum_tables"):
                 d = oracles.compare_enum_tables(af, mf)
                 if d:
